@@ -66,11 +66,10 @@ const c08Replicas = 6
 var c08Families = []string{"plain", "plain-filtered", "ordered", "ordered-ties", "aggregate", "aggregate-ordered", "delete", "delete-filtered", "aggregate-all", "ordered-2keys", "mget", "plain-sparse", "delete-sparse", "ordered-sparse", "alias-filtered"}
 
 type gridPt struct {
-	fam     int
-	mode    int
-	b, r    int
-	s, n    int
-	shortOK bool
+	fam  int
+	mode int
+	b, r int
+	s, n int
 }
 
 var (
